@@ -25,7 +25,7 @@ import (
 //           schema header) to exactly the values encoded.
 // A symmetric reader/writer error cannot cancel out because both ends are the reference codec.
 
-const c01Rule = "generated package (records, enums, flags, aliases, generics, imports; all type constructors) x 3-6 value sequences per protocol (edge integers around varint length changes, NaN/inf/-0.0, multi-byte UTF-8, empty containers, rarely >64 KiB strings and 3000-23000 element vectors, random stream block partitions); legs: reference-encoded stream -> generated binary reader -> generated binary writer -> reference decoder, in Python and in C++; non-trivial = the sequence contains a non-primitive constructor or a stream; distinct = hash of model text + values"
+const c01Rule = "generated package (records, enums, flags, aliases, generics, imports; all type constructors) x 3-6 value sequences per protocol (edge integers around varint length changes, NaN/inf/-0.0, multi-byte UTF-8, empty containers, rarely >64 KiB strings and 3000-23000 element vectors, random stream block partitions); legs: reference-encoded stream -> generated binary reader -> generated binary writer -> reference decoder, in Python (two sequences in three with every array given to the writer in Fortran order or as a strided view) and in C++; non-trivial = the sequence contains a non-primitive constructor or a stream; distinct = hash of model text + values"
 
 func checkC01(c RTCase) *Fail {
 	rec := core.Rec("C01")
@@ -50,6 +50,13 @@ func checkC01(c RTCase) *Fail {
 		var jobs []sut.Job
 		for i, run := range c.Runs {
 			j := sut.Job{Op: "copy", Proto: run.Proto, InFmt: "binary", OutFmt: "binary", In: inputs[i], Out: filepath.Join(b.Root, fmt.Sprintf("out%d.%s.bin", i, lang))}
+			if lang == "python" && i%3 != 0 {
+				// two sequences in three: the values the reader returned are written step by step, every
+				// array first brought into another memory layout (Fortran order / a strided view) - the same
+				// values, which the writer must lay out in row-major order all the same
+				j.Mode = "list"
+				j.Relayout = []string{"", "F", "strided"}[i%3]
+			}
 			if lang == "cpp" && i%2 == 1 {
 				// every other sequence goes through the batch overloads, with a buffer that fills up exactly
 				// where the first block of the stream ends
